@@ -100,3 +100,14 @@ claimed["C12"] = (
     "reaches the handler and is reported to the error handlers, an accepted one reaches it exactly once.",
     "Outside the claim: concurrently connecting clients (C16), the wire encoding of CONNECT_ERROR (C09), auth payload decoding (encoding/json.Unmarshal is stubbed: succeeds, target untouched).",
     "5 (C12)")
+
+claimed["C17"] = (
+    "Bounded symbolic execution / model checking of the Engine.IO server's request validation through the real Server.ServeHTTP (net/url query parsing and strconv.Atoi executed from SSA, polling transport real, "
+    "HTTP request/response as recording stand-ins): (1) the full matrix method {GET,POST,PUT} x EIO {absent,3,4,5, seven junk forms} x transport {absent,polling,websocket,junk} x sid {absent,unknown,live,closed} x b64, "
+    "before and after Server.Close, on a server holding one live session and one closed id: protocol error code per case (5 / 1 / 2 / 0, any error for a live sid with an unknown transport), store unchanged, no "
+    "session created, valid polling handshake creates exactly one, 503 after Close; (2) id distinctness with SYMBOLIC random bytes and symbolic sequence numbers differing by any d in (0,2^24) through the real "
+    "base64 encoder, invalid sizes refused, and an overlapping id neither overwrites nor removes the live session; (3) a valid handshake racing Server.Close under all interleavings at synchronisation points "
+    "(preemption bound 2): after Close returned no live session remains.",
+    "Outside the claim: real HTTP parsing, the WebSocket / WebTransport handshakes (ProtoMajor 3), JSONP, 10^5..10^6 generated ids (replaced by the symbolic distinctness argument); the error code in the body is read from the value "
+    "handed to json.Marshal (stubbed) in the executor and from the real JSON body in native replay.",
+    "5 (C17)")
